@@ -29,6 +29,7 @@ import OpenFGAVerif.Proofs.IterOCRelease
 import OpenFGAVerif.Model.Release
 import OpenFGAVerif.Gen.Reducer
 import OpenFGAVerif.Gen.Release
+import OpenFGAVerif.Props.Release2
 
 namespace OpenFGAVerif.C20
 open OpenFGAVerif.BoolSys OpenFGAVerif.Dfs OpenFGAVerif.CheckV1
